@@ -13,6 +13,24 @@ CHECKS = {
         text="TLC checks GapFree/AckedOnce/AppendOnly exhaustively on the repaired design (2 writers, 2 threads, 1 session, 1 crash) and reproduces each recorded deviation; every interleaving of two writers' critical-section steps that TLC enumerates is forced on the real ContinuityStore and the real events.jsonl must be gap-free and pass the code's replay_validated; free-running multi-client runs through the real router are validated event by event by TLC.",
         note="Schedules are forced only at the instrumented points (op.start, log.pre, cache.enter, cache.exit, api.return); exhaustive within 2 writers x 1 operation; trusted: TLC, hook placement, harness projection (stream,seq,kind per line).",
         ref="4 C01"),
+    "C02": dict(
+        engine="Threads",
+        technique="TLA+ spec Threads (reference semantics Eff of every capability) checked with TLC; one implementation test per transition of its state graph with byte-level log observation; byte-level traces validated by TLC (LogDeltaTrace)",
+        text="TLC proves ReadOnlyQuiet on the reference semantics and enumerates every distinct store state (bounded) with the predicted effect of every operation of the alphabet (every request-parameter class, refused requests, unknown and malformed thread ids); the harness executes each (state, operation) pair on the real store and compares events.jsonl byte for byte before/after: exact prefix, whole newline-terminated frames, nothing when the model predicts nothing. Restart / cache-fault / injected-append-failure histories are validated by TLC as traces.",
+        note="Exhaustive within MaxFrames/MaxOps of the configuration; sequential histories; trusted: TLC, the byte comparison in the harness.",
+        ref="4 C02"),
+    "C09": dict(
+        engine="Threads",
+        technique="TLA+ spec Threads (cut points, planner, executor, scheduler as operators over the frame sequence) model-checked with TLC; every (state, compaction request) transition replayed on the real store and compared with the prediction; gate-scheduled concurrent calls",
+        text="TLC proves CutPointsAreStrideMessages and AutoIdempotent on every reachable state and generates, per state, the predicted answer and appended frames of every compaction request class; the real store must give the same answer and frames, every created checkpoint must reference a readable summary with matching coverage, a repeated call with an exhausted plan must append nothing, the same history must give the same summary text with caches present / removed / after restart, and interleaved concurrent calls must keep job brackets well-formed.",
+        note="Exhaustive within MaxFrames/MaxOps; summary text compared after replacing ids by positions; concurrency sampled by alternation patterns at every append.",
+        ref="4 C09"),
+    "C10": dict(
+        engine="Threads",
+        technique="TLA+ spec Threads (EffLineage: cut resolution for every selector class) model-checked with TLC (LineageSound); every (state, branch/handoff request) transition replayed on the real store and compared with the prediction",
+        text="TLC proves LineageSound (cut within the parent, names the last message at or before it, parent untouched) on every reachable state and generates the predicted outcome of every selector class in every state; the real store must answer the same, add bytes only for the new thread (created@0, lineage@1) and a handoff's summary must be readable afterwards.",
+        note="Exhaustive within MaxFrames/MaxOps; artifact readability = blob file exists under .rip/artifacts/blobs.",
+        ref="4 C10"),
 }
 
 NOT_YET = {}
